@@ -1,6 +1,8 @@
 import MorfuseModel.Archive.Sample
 import MorfuseModel.Archive.ValueRoundTrip
 import MorfuseModel.Archive.EqW
+import MorfuseModel.Archive.Dict
+import MorfuseModel.Archive.TablesLemmas
 /-!
 # C10 — archives round-trip values and object graphs faithfully
 
@@ -41,7 +43,7 @@ mutual
 /-- pointer slots of a sequence in call order (`0` = null) -/
 def ptrSlotsItem : Item → List Lbl
   | .ptr _ o => [o]
-  | .object _ _ body => ptrSlots body
+  | .object _ _ _ body => ptrSlots body
   | _ => []
 def ptrSlots : List Item → List Lbl
   | [] => []
@@ -102,6 +104,63 @@ theorem C10_roundtrip_mixed (cfg : Cfg) (classes : List Bytes) (info : Info) (ws
     decodeW cfg classes info (schemaW ws) (encodeW info ws) = .ok ws :=
   decodeW_encodeW cfg classes info ws hw
 
+/-! ### constant strings and the dictionary of the loading session (`StringDictionary::ArchiveString`) -/
+
+/-- **Any reading dictionary.**  A ConstString value is archived by its text and interned on load into the
+    dictionary of the *loading* script context.  Whatever that dictionary `D` holds beforehand (nothing, the same
+    strings at other ids, other strings at the writer's ids): the load returns the sequence that was written,
+    every id `D` had keeps its text, and the `const_str` each loaded ConstString value received denotes — in the
+    dictionary after the load — exactly the text that was archived (`L.ids` in load order against
+    `constTextsW ws`). -/
+theorem C10_const_string_any_dictionary (cfg : Cfg) (classes : List Bytes) (info : Info) (ws : List WItem)
+    (hw : WFW cfg classes info ws) (D : Dict) :
+    ∃ L, decodeWD cfg classes info (schemaW ws) D (encodeW info ws) = .ok L ∧ L.items = ws ∧ D <+: L.dict ∧
+      L.ids.map L.dict.text = (constTextsW ws).map some :=
+  decodeWD_encodeW cfg classes info ws hw D
+
+/-- **Identity of constant strings.**  Two loaded constant strings are the same `const_str` iff their texts are
+    equal (script code compares constant strings by id), for every reading dictionary. -/
+theorem C10_const_string_identity (D : Dict) (texts : List Bytes) (i j : Nat) (hi : i < texts.length)
+    (hj : j < texts.length) :
+    (D.loadAll texts).2[i]? = (D.loadAll texts).2[j]? ↔ texts[i]? = texts[j]? :=
+  Dict.loadAll_ids_eq_iff texts D i j hi hj
+
+/-- **Ids of the loading session are stable.**  A text the loading dictionary already holds is given the id it
+    already has (so a loaded constant string equals the one compiled scripts use), and no id changes its text. -/
+theorem C10_dictionary_ids_stable (D : Dict) (texts : List Bytes) :
+    (∀ (k : Nat) (bs : Bytes), bs ∈ D → texts[k]? = some bs → (D.loadAll texts).2[k]? = some (D.idxOf bs + 1)) ∧
+    (∀ (i : Nat) (bs : Bytes), D.text i = some bs → (D.loadAll texts).1.text i = some bs) :=
+  ⟨fun k bs hm h => Dict.loadAll_known texts D k bs hm h, fun _ _ h => Dict.loadAll_keeps texts D h⟩
+
+/-- what `Get(text)` on the load side would do (the text is looked up, not interned): a constant string the
+    loading dictionary has not seen comes back as `const_str::None()` -/
+theorem C10_lookup_instead_of_intern_loses_text : (Dict.find [] [97]) = 0 ∧ Dict.text [] 0 = none := by decide
+
+/-! ### `Listener::Archive`'s own tables (`con::set<const_str, ConList>`, `Container<SafePtr<Listener>>`) -/
+
+/-- **Listener tables, stream phase.**  The bytes of a Listener record with event tables are
+    `encItem t (.object m o "Listener" (listenerCalls st))` (so `C10_roundtrip` already covers them for a reader
+    that knows the schema); the real reader is **data-directed** — flag byte, `count`, `hasString`, `num` decide
+    which calls follow.  Run where the stream holds what the writer produced for `st` (after any prefix, with any
+    object table `t` so far), that reader returns the tables — archive indices in the pointer slots — consumes
+    exactly the body and queues exactly the fix-ups of the body.  Any number of entries, keys of any text, lists
+    of any length with null and repeated listeners. -/
+theorem C10_listener_tables_roundtrip (cfg : Cfg) (T : List Lbl) (hT : T.length < nullIdx) (st : LTables)
+    (hw : WFTables cfg st) (t : List Lbl) (tail : Bytes) (pos : Nat) (R : List Lbl) (F : List Nat)
+    (hp : (encItems t (listenerCalls st)).1 <+: T) (hR : R.length = T.length) :
+    readListener cfg ⟨(encItems t (listenerCalls st)).2 ++ tail, pos, true, R, F⟩ =
+      .ok (rawTables T st) ⟨tail, pos + (encItems t (listenerCalls st)).2.length, true, R,
+        newFix T (listenerCalls st) ++ F⟩ :=
+  readListener_honest hT cfg st hw t tail pos R F hp hR
+
+/-- **Listener tables, `Close`.**  Once the fix-ups are resolved against a table in which every listener the
+    tables point to sits at its archive index, the tables are the ones that were written: same keys, same
+    listeners in the same order in every list, null stays null, same `tableLength` / `threshold` /
+    `tableLengthIndex`. -/
+theorem C10_listener_tables_close (T Rf : List Lbl) (st : LTables)
+    (h : ∀ o ∈ tableTargets st, Rf.getD (T.idxOf o) 0 = o) : fixTables Rf (rawTables T st) = st :=
+  fixTables_raw T Rf st h
+
 /-- the unrepaired `ArchiveInternal` (`m_data.stringValue = new str(4)`): an empty String value comes back as
     the text "4" — replayed on the real code by corpus/C10/empty-string-value.json -/
 theorem C10_legacy_empty_string_value :
@@ -113,7 +172,7 @@ theorem C10_legacy_empty_string_value :
 
 /-- a listener pointer written before its target, a const array shared by two variables, an empty string -/
 def sampleW : List WItem :=
-  [.value 10 (.listener 1), .item (.object 1 [76] [.prim .u8 0]),
+  [.value 10 (.listener 1), .item (.object .typed 1 [76] [.prim .u8 0]),
    .value 11 (.constArray 50 1 [(51, .int 7), (52, .string []), (53, .constArray 60 0 [(61, .vector [0,0,0,0,0,0,0,0,0,0,0,0])])]),
    .value 12 (.constArrayRef 50), .value 13 (.constString (some [97])), .value 14 .none]
 
@@ -137,12 +196,50 @@ theorem sampleW_wf : WFW Cfg.fixed [[76]] sampleInfo sampleW where
 example : decodeW Cfg.fixed [[76]] sampleInfo (schemaW sampleW) (encodeW sampleInfo sampleW) = .ok sampleW :=
   C10_roundtrip_mixed _ _ _ _ sampleW_wf
 
+/-- loaded into a dictionary that holds another string at id 1 and the archived text "a" at id 2 -/
+example : ∃ L, decodeWD Cfg.fixed [[76]] sampleInfo (schemaW sampleW) [[120], [97]] (encodeW sampleInfo sampleW) = .ok L ∧
+    L.items = sampleW ∧ [[120], [97]] <+: L.dict ∧ L.ids.map L.dict.text = (constTextsW sampleW).map some :=
+  C10_const_string_any_dictionary _ _ _ _ sampleW_wf _
+
+example : constTextsW sampleW = [[97]] := by decide
+example : (Dict.loadAll [] [[97], [98], [97]]).2 = [1, 2, 1] := by decide
+example : (Dict.loadAll [[98]] [[97], [98], [97]]) = ([[98], [97]], [2, 1, 2]) := by decide
+
 
 example : decode Cfg.legacy [[76], [86]] sampleInfo (schemaOf sample) (encode sampleInfo sample) = .ok sample :=
   C10_roundtrip _ _ _ _ (sample_wf _ (by decide))
 
 example : decode Cfg.fixed [[76], [86]] sampleInfo (schemaOf sample) (encode sampleInfo sample) = .ok sample :=
   C10_roundtrip _ _ _ _ (sample_wf _ (by decide))
+
+/-- a listener with a notify table of two entries (one list with a repeated and a null listener) and an end table -/
+def sampleTables : LTables :=
+  { notify := some { tableLength := 3, threshold := 3, tableLengthIndex := 0, entries := [(some [97], [5, 0, 5]), (some [98, 99], [6])] },
+    waitFor := none,
+    endl := some { tableLength := 1, threshold := 1, tableLengthIndex := 0, entries := [(some [100], [])] } }
+
+theorem sampleTables_wf : WFTables Cfg.fixed sampleTables where
+  notify := by
+    refine ⟨by decide, by decide, by decide, by decide, ?_⟩
+    intro e he
+    simp only [sampleTables, List.mem_cons, List.not_mem_nil, or_false] at he
+    rcases he with rfl | rfl <;>
+      exact ⟨by simp [WFKey, strAlloc, Cfg.fixed], by simp [WFList, safePtrSize, Cfg.fixed]⟩
+  waitFor := trivial
+  endl := by
+    refine ⟨by decide, by decide, by decide, by decide, ?_⟩
+    intro e he
+    simp only [sampleTables, List.mem_cons, List.not_mem_nil, or_false] at he
+    subst he; exact ⟨by simp [WFKey, strAlloc, Cfg.fixed], by simp [WFList, safePtrSize, Cfg.fixed]⟩
+
+example : readListener Cfg.fixed ⟨(encItems [5, 6] (listenerCalls sampleTables)).2 ++ [1, 2], 7, true, [0, 0], []⟩ =
+    .ok (rawTables [5, 6] sampleTables) ⟨[1, 2], 7 + (encItems [5, 6] (listenerCalls sampleTables)).2.length, true, [0, 0],
+      newFix [5, 6] (listenerCalls sampleTables) ++ []⟩ :=
+  C10_listener_tables_roundtrip Cfg.fixed [5, 6] (by decide) sampleTables sampleTables_wf [5, 6] [1, 2] 7 [0, 0] []
+    (by decide) rfl
+
+example : fixTables [5, 6] (rawTables [5, 6] sampleTables) = sampleTables :=
+  C10_listener_tables_close [5, 6] [5, 6] sampleTables (by decide)
 
 example : ptrSlots sample = [1, 1, 2, 3, 0] := by decide
 
